@@ -55,6 +55,10 @@ def sharing():
         "fn main() { let s = 1; let t = s; t += 1; println(s, t); }",
         "fn main() { let s = \"a\"; let t = s; t += \"b\"; println(s, t); }",
         "fn main() { let l = [1, 2]; let x = l[0]; l[0] = 9; println(x, l); }",
+        # `?e` wraps a COPY of a scalar read from a cell: later writes to the cell do not reach the option
+        "fn main() { let l = [1, 2, 3]; let a = ?l[0]; l[0] = 10; println(a, l); let o = new { n: 7, s: \"x\" }; let b = ?o.n; let c = ?o.s; o.n += 1; o.s = \"y\"; println(b, c, o.n, o.s); let d = ?l[1]; l[1] += 5; println(d, d.unwrap() + 1, l); }",
+        # a `for` loop copies the sequence, not its elements: inner lists and objects are the same ones
+        "fn main() { let m = [[1], [2]]; for row in m { row.push(0); } println(m); let os = [new { a: 1 }, new { a: 2 }]; for x in os { x.a += 5; } println(os); for row in m { m.push([9]); row[0] = 7; if m.len() > 5 { break; } } println(m); let n = [[[1]]]; for a in n { for b in a { b.push(2); } } println(n); }",
         "fn main() { let x = 5; let l = [x, x]; l[0] = 9; println(x, l); x = 6; println(l); }",
         "fn main() { let o = new { a: 1, b: \"s\" }; let x = o.a; o.a = 9; println(x, o.a); }",
         "fn main() { let x = 5; let o = new { a: x, b: \"s\" }; o.a = 9; println(x); x = 7; println(o.a); }",
@@ -394,6 +398,10 @@ def tour():
         'import { templ FooFeature } from templates;\n$Lamp = { power: bool, lvl: int };\nimpl FooFeature with { light } for $Lamp {\n    fn dim(self: $Lamp, percent: int) -> bool { self.lvl = percent; percent > 50 }\n}\nfn main() { println($Lamp.lvl); println(dim(70)); println($Lamp.lvl); println(dim(10), $Lamp.lvl); }',
         # a function literal written inside try blocks, leaving through `return`: the handlers of its caller stay in force
         'fn main() { try { let f0 = fn() -> int { return 5; }; println(f0()); } catch z { println("never"); } println("after plain try"); try { let f = fn() -> int { return 1; }; println(f()); throw("boom"); } catch e { println("caught", e.message); } try { try { let g = fn(k: int) -> int { if k > 0 { return k; } 0 }; println(g(2), g(0)); } catch a { println("inner"); } throw("outer"); } catch b { println("caught", b.message); } println("done"); }',
+        # data fields named like the builtin members of objects, on both backends (read, arithmetic, assignment)
+        'type Config = { keys: int, name: str, to_json: int };\nfn main() { let o = new { to_string: 42, n: 1 }; println(o.n, o.to_string); o.to_string += 1; println(o.to_string + 1); let c = "{\\"keys\\": 3, \\"name\\": \\"x\\", \\"to_json\\": 5}".parse_json() as Config; println(c.keys + c.to_json, c.name); c.keys = 9; println(c.keys); }',
+        # variadic builtins as values inside objects / lists / options against function types of another parameter kind
+        'fn main() { let p = println; p("via value", 1); let q = ?println; q.unwrap()("from option"); let d = ?debug; d.unwrap()(1, "x"); }',
         'fn main() { assert(true); println("ok"); assert(1 == 2); println("not reached"); }',
         'fn main() { debug(1, "a", [1, 2], new { a: 1 }); println("after debug"); }',
         'fn main() { println(fmt("%d and %s", 1, "x")); println(fmt("%v|%v", [1], 2.5)); }',
